@@ -77,6 +77,99 @@ pub fn test_case(case: &TrainCase) -> TestResult {
         .class(case.corpus.iter().any(|r| r.labels.iter().all(|&l| l == UNK) && !r.labels.is_empty()), "all-unknown-sentence"))
 }
 
+/// "The examples handed to the learner": the stored problem (labels + sparse vectors with their
+/// feature ids, hook Trainer::verif_problem) is given to liblinear by the harness itself, with
+/// the trainer's parameters and the same pseudo-random state; the quantised bias and weights must
+/// be the ones Trainer::train records. Whatever train() does to the examples before the learner
+/// sees them (dropping, reordering, re-weighting) changes the solution.
+pub fn test_learner_input(case: &TrainCase) -> TestResult {
+    use liblinear::LibLinearModel;
+    let cfg = &case.cfg;
+    // untagged corpus: only the boundary learner runs
+    let corpus: Vec<vcommon::oracle::RefSentence> = case
+        .corpus
+        .iter()
+        .map(|r| {
+            let mut r = r.clone();
+            r.n_tags = 0;
+            r.tags = vec![vec![]; r.chars.len()];
+            r
+        })
+        .collect();
+    let sentences: Vec<Sentence<'static, 'static>> =
+        corpus.iter().map(|r| r.to_sentence()).collect::<Result<_, _>>()?;
+    let tag_dict: Vec<Sentence<'static, 'static>> = vec![];
+    let mut trainer = match Trainer::new(cfg.charw, cfg.charn, cfg.typew, cfg.typen, cfg.dict.clone(), cfg.dictn, &tag_dict) {
+        Ok(t) => t,
+        Err(_) => return Ok(Info::new(false).class(true, "trainer-rejected-configuration")),
+    };
+    for s in &sentences {
+        trainer.add_example(s);
+    }
+    let (ys, xs, ids) = trainer.verif_problem();
+    let featureless = xs.iter().filter(|x| x.is_empty()).count();
+    let n_examples = ys.len();
+    let solver = train::solver_of(cfg.solver);
+    let (eps, cost) = (0.01, 1.0);
+    let got = crate::util::train_deterministic(|| {
+        let r = trainer.train(eps, cost, solver);
+        (r.is_ok(), vaporetto::verif_hooks::take_train_record())
+    });
+    // the same problem, handed to the learner by the harness
+    let reference = crate::util::train_deterministic(|| -> Result<(i32, Vec<(u32, i32)>), String> {
+        let input = liblinear::util::TrainingInput::from_sparse_features(ys, xs).map_err(|e| format!("{e:?}"))?;
+        let mut builder = liblinear::Builder::new();
+        builder.problem().input_data(input).bias(1.0);
+        builder
+            .parameters()
+            .solver_type(train::liblinear_solver_of(cfg.solver))
+            .stopping_criterion(eps)
+            .constraints_violation_cost(cost);
+        let model = builder.build_model().map_err(|e| e.to_string())?;
+        let wb = model.labels().iter().position(|&c| c == 1).ok_or("no word boundary among the labels")? as i32;
+        let bias = model.label_bias(wb);
+        let mut wmax = bias.abs();
+        for fid in 0..model.num_features() {
+            wmax = wmax.max(model.feature_coefficient(fid as i32 + 1, wb).abs());
+        }
+        let q = wmax / 32767.0;
+        if q == 0.0 {
+            return Err("all weights are zero".into());
+        }
+        let mut ws: Vec<(u32, i32)> = ids.iter().map(|(_, fid)| (*fid, (model.feature_coefficient(*fid as i32, wb) / q) as i32)).collect();
+        ws.sort();
+        Ok(((bias / q) as i32, ws))
+    });
+    let info = Info::new(featureless > 0 && n_examples > featureless)
+        .class(featureless > 0, "example-without-features")
+        .class(n_examples == 0, "no-example");
+    match (got.0, reference) {
+        (false, Err(_)) => Ok(info.class(true, "both-fail")),
+        (true, Err(e)) => Err(format!("Trainer::train returns a model, but the learner given the stored examples fails: {e} (cfg {cfg:?})").into()),
+        (false, Ok(_)) => Err(format!(
+            "Trainer::train fails, but the learner given the {n_examples} stored examples ({featureless} without features) succeeds (cfg {cfg:?})"
+        )
+        .into()),
+        (true, Ok((bias, ws))) => {
+            let rec = got.1;
+            ensure_eq!(
+                rec.bias,
+                Some(bias),
+                "quantised bias differs from what the learner gives for the stored examples ({n_examples} examples, {featureless} without features, cfg {cfg:?})"
+            );
+            let id_of: std::collections::HashMap<&HookFeature, u32> = ids.iter().map(|(f, i)| (f, *i)).collect();
+            let mut got_ws: Vec<(u32, i32)> = vec![];
+            for (f, w) in &rec.boundary_weights {
+                let fid = *id_of.get(f).ok_or_else(|| format!("recorded weight for a feature without id: {f:?}"))?;
+                got_ws.push((fid, *w));
+            }
+            got_ws.sort();
+            ensure_eq!(got_ws, ws, "quantised weights differ from what the learner gives for the stored examples (cfg {cfg:?})");
+            Ok(info.class(true, "model-compared"))
+        }
+    }
+}
+
 fn long_sentence_cases() -> Vec<TrainCase> {
     use vcommon::oracle::RefSentence;
     use vcommon::train::TrainCfg;
@@ -105,6 +198,47 @@ dictionary words at the start region and at the very end; same oracle",
         false,
         long_sentence_cases().into_iter(),
         |c: &TrainCase| test_case(c).map(|mut i| { i.nontrivial = true; i }),
+    );
+    liblinear::toggle_liblinear_stdout_output(false);
+    let _guard = crate::util::redirect_output("/verif/target/C10-train-output.log");
+    rep.run_enum(
+        "long-words",
+        "the long-token corpora of C11 (a token of 127 / 255 / 256 / 257 / 300 characters that is a \
+dictionary word and an ambiguous tagged token, buckets 1 / 4 / 255): same oracle",
+        false,
+        [127usize, 255, 256, 257, 300].into_iter().enumerate().flat_map(|(k, l)| [crate::checks::c11::long_word_case(l, k), crate::checks::c11::long_word_case(l, k + 1)]),
+        |c: &TrainCase| test_case(c).map(|mut i| { i.nontrivial = true; i }),
+    );
+    let n = rep.n(15000, 500000);
+    rep.run_prop(
+        "learner-input",
+        "generated corpora x configurations (sizes 0..4, all solvers): the stored problem (hook \
+Trainer::verif_problem: labels, sparse vectors with feature ids, in stored order) is handed to \
+liblinear by the harness with the trainer's parameters and the same pseudo-random state; the \
+quantised bias and every quantised weight recorded by Trainer::train must equal that solution, \
+and train must fail exactly when that learner run fails. Non-trivial = a corpus with an \
+annotated boundary that has no feature at all next to boundaries that have some.",
+        n,
+        || {
+            use proptest::prelude::*;
+            (train::train_case(TrainGenCfg { max_sentences: 6, max_len: 8, tame: false, tag_dict: false, tag_focus: false }), 0u8..6)
+                .prop_map(|(mut c, mode)| {
+                    // dictionary-only and bias-only configurations: boundaries without any feature
+                    match mode {
+                        0 => {
+                            c.cfg.charw = 0;
+                            c.cfg.typew = 0;
+                        }
+                        1 => {
+                            c.cfg.charn = 0;
+                            c.cfg.typen = 0;
+                        }
+                        _ => {}
+                    }
+                    c
+                })
+        },
+        test_learner_input,
     );
     let n = rep.n(60000, 3000000);
     rep.run_prop(
